@@ -26,7 +26,12 @@ pub struct SrcCase {
     /// tools would call the file binary, blockwatch has no such notion)
     #[serde(default)]
     pub nul: bool,
+    /// the file starts with FAR_LINES empty lines: every line number lies beyond 65 535
+    #[serde(default)]
+    pub far: bool,
 }
+
+pub const FAR_LINES: usize = 70_000;
 
 pub const ECHO_PATTERN: &str = r"[\s\S]*";
 
@@ -76,6 +81,9 @@ pub fn prepare(c: &SrcCase) -> Prepared {
     }
     if c.bom {
         built = built.with_bom();
+    }
+    if c.far {
+        built = built.with_blank_prefix(FAR_LINES, c.crlf);
     }
     Prepared { suffix, lang, file: langs::file_name("src", suffix), built }
 }
@@ -152,6 +160,9 @@ pub fn check_as(prop: &str, c: &SrcCase, probe: &Probe, nontrivial: &dyn Fn(&Pre
     if c.crlf {
         probe.class("crlf");
     }
+    if c.far {
+        probe.class("line-numbers-beyond-65535");
+    }
     let sb = Sandbox::with_fake_git();
     sb.write(&p.file, p.built.text.as_bytes());
     sb.write("echo.lua", super::c11::ECHO_LUA.as_bytes());
@@ -163,7 +174,7 @@ pub fn check_as(prop: &str, c: &SrcCase, probe: &Probe, nontrivial: &dyn Fn(&Pre
             "{prop} [{}]: {what}\n--- {} ---\n{}\n--- blocks by construction ---\n{}\n--- observed ---\n{}",
             p.suffix,
             p.file,
-            p.built.text,
+            if c.far { format!("<{FAR_LINES} empty lines>\n{}", p.built.text.trim_start_matches(['\r', '\n'])) } else { p.built.text.clone() },
             truth.iter().map(|b| format!("  line {} col {} depth {} attrs {:?} content {:?}", b.line, b.col, b.depth, b.attrs, b.content)).collect::<Vec<_>>().join("\n"),
             o.brief()
         )
@@ -233,8 +244,8 @@ pub fn check_as(prop: &str, c: &SrcCase, probe: &Probe, nontrivial: &dyn Fn(&Pre
 }
 
 pub fn case_strategy() -> BoxedStrategy<SrcCase> {
-    (0..SUFFIXES.len(), builder::events_strategy(builder::simple_tag_strategy(), 28), proptest::bool::weighted(0.15), any::<bool>(), (proptest::bool::weighted(0.15), proptest::bool::weighted(0.08), proptest::bool::weighted(0.1)))
-        .prop_map(|(suffix, events, crlf, echo, (no_eol, bom, nul))| SrcCase { suffix, events, crlf, echo, no_eol, bom, nul })
+    (0..SUFFIXES.len(), builder::events_strategy(builder::simple_tag_strategy(), 28), proptest::bool::weighted(0.15), any::<bool>(), (proptest::bool::weighted(0.15), proptest::bool::weighted(0.08), proptest::bool::weighted(0.1), proptest::bool::weighted(0.01)))
+        .prop_map(|(suffix, events, crlf, echo, (no_eol, bom, nul, far))| SrcCase { suffix, events, crlf, echo, no_eol, bom, nul, far })
         .boxed()
 }
 
@@ -255,20 +266,32 @@ pub fn golden_cases() -> Vec<SrcCase> {
                 no_eol: false,
                 bom: false,
                 nul: false,
+                far: false,
             });
+            if f == 0 {
+                let mut far = out.last().unwrap().clone();
+                far.far = true;
+                out.push(far);
+                // … and with a 70 000-byte attribute: the tag's `>` sits at a column beyond 65 535
+                let mut wide = out[out.len() - 2].clone();
+                if let Ev::Open { tag, .. } = &mut wide.events[1] {
+                    tag.attrs.push(Attr::simple("note", &"x".repeat(70_000)));
+                }
+                out.push(wide);
+            }
         }
     }
     out
 }
 
 pub fn run(run: &mut Run) {
-    run.rule = "random: suffix uniform over the 39 registered suffixes; a flat event list (start/end tags with placement: comment form of the language, own comment or joined with the previous tag, code before/after on the same line, noise text before/after the tag, tag on its own line of a multi-line comment, `*` decoration, indentation; code lines; noise comments incl. look-alikes; decoy tags in string literals / markup / code; blank lines) balanced into a well-nested structure, CRLF in 15%, content observed through a check-lua echo in 50%. Ground truth (attributes, line/byte column of `<` and `>`, exact content) by construction. Generated sources that the language's own tree-sitter grammar does not accept without ERROR nodes are discarded (counted). Non-trivial = (>= 2 blocks with nesting, or >= 1 decoy) and (a multi-line comment or several tags in one comment). enumerated: one golden file per (suffix, comment form).".into();
+    run.rule = "random: suffix uniform over the 39 registered suffixes; a flat event list (start/end tags with placement: comment form of the language, own comment or joined with the previous tag, code before/after on the same line, noise text before/after the tag, tag on its own line of a multi-line comment, `*` decoration, indentation; code lines; noise comments incl. look-alikes; decoy tags in string literals / markup / code; blank lines) balanced into a well-nested structure, CRLF in 15%, no final line terminator in 15%, a byte-order mark in 8%, a trailing comment holding a NUL character in 10%, the whole file below 70 000 empty lines (line numbers beyond 65 535) in 1%, content observed through a check-lua echo in 50%. Ground truth (attributes, line/byte column of `<` and `>`, exact content) by construction. Generated sources that the language's own tree-sitter grammar does not accept without ERROR nodes are discarded (counted). Non-trivial = (>= 2 blocks with nesting, or >= 1 decoy) and (a multi-line comment or several tags in one comment). enumerated: one golden file per (suffix, comment form), the first form of every suffix also below 70 000 empty lines and with a 70 000-byte attribute value.".into();
     run.assumptions = vec![
         "tree-sitter acceptance (no ERROR node) is used only as a validity filter for generated sources, never for the expected answer".into(),
         "the line terminator directly after a Rust doc comment / Markdown definition, and the \\r of CRLF after a line comment, are unspecified".into(),
         "go.mod/go.sum/go.work get go.mod-style lines with own-line // comments (not checkable by the Go grammar)".into(),
     ];
-    run.enumerate("golden", golden_cases(), Some("one canonical block per (suffix, comment form)"), check);
+    run.enumerate("golden", golden_cases(), Some("one canonical block per (suffix, comment form), the first form of every suffix also below 70 000 empty lines and with a 70 000-byte attribute value"), check);
     run.random("sources", run.tier.pick(6000, 150000), case_strategy, check);
     if run.tier == crate::engine::Tier::Thorough {
         let seeds: Vec<Vec<u8>> = (0..64u8).map(|i| (0..40u8).map(|k| i.wrapping_mul(37).wrapping_add(k.wrapping_mul(11))).collect()).collect();
